@@ -9,7 +9,7 @@ run() { # name patch prop
   out=$(tools/mutant.sh "$2" "$3" $tier 2>&1 | tail -1)
   echo "$(date +%H:%M:%S) $tier $3 $1 :: $out" | cut -c1-400 | tee -a mutants/RESULTS.txt
 }
-match() { [ ${#filters[@]} -eq 0 ] && return 0; for f in "${filters[@]}"; do case "$1" in $f*) return 0;; esac; done; return 1; }
+match() { [ ${#filters[@]} -eq 0 ] && return 0; for flt in "${filters[@]}"; do case "$1" in $flt*) return 0;; esac; done; return 1; }
 filters=("$@")
 for f in mutants/*.diff; do
   n=$(basename $f .diff); match $n || continue
